@@ -4,7 +4,8 @@ LOCK: every access to next_id / next_serial lies inside the live range of the
 wrap_lock guard; WHO: leaking accessors have no caller; per-path store/PROV
 rules in allocate; atomic-RMW discipline on reference_counter; creation PROV.
 """
-from ..core import callee_names, is_call_to, fold
+from ..core import callee_names, callee_of, is_call_to, fold, root_fields
+from ..ranges import canon
 from ..families import guard_flow
 
 PA = 'edp_client::pid_allocator::PidAllocator'
@@ -374,6 +375,42 @@ def run(ctx):
     ctx.rule('C16.5-creation-conversions', 'Creation::new / From<u32> store the value they are given: a mask or a narrowing there makes pids carry a creation other than the one in force', floor=1)
     from ..families import check_newtype_verbatim
     check_newtype_verbatim(ctx, P, 'C16.5-creation-conversions', ['edp_client::types::Creation'])
+
+    # the node keeps the creation in two places (its own field, used for references, and the allocator, used for pids): whoever
+    # stores one stores the other
+    ctx.rule('C16.5-creation-stores-paired', 'every function of the node that stores a value into the node\'s `creation` field also hands that value to PidAllocator::set_creation on every path from the store to its return: '
+             'otherwise references carry the creation in force while pids keep the allocator\'s initial one', floor=1)
+    n_cs = 0
+    for NB in P.all('edp_node'):
+        stores = []
+        for bb, t in NB.calls():
+            nm = callee_of(t)[0] or ''
+            if nm.startswith('core::sync::atomic::') and nm.endswith('::store') and t['args'] and 'creation' in root_fields(NB, t['args'][0]):
+                stores.append((bb, t))
+        if not stores:
+            continue
+        sets = set(bb for bb, t in NB.calls() if any(n.endswith('PidAllocator::set_creation') for n in callee_names(t)))
+        rets = set(NB.return_blocks())
+        for sb, st_ in stores:
+            n_cs += 1
+            inst = '%s:creation.store#%d' % (NB.path.split('::{')[0].rsplit('::', 1)[-1], n_cs)
+            before = [x for x in sets if NB.block_dominates(x, sb)]
+            after = sets & (NB.reachable(sb) - {sb})
+            if before or (after and NB.all_paths_pass(sb, after, rets)):
+                # same value?
+                vals_ok = True
+                for x in (before or sorted(after)):
+                    xt = NB.blocks[x]['t']
+                    if len(xt['args']) > 1 and len(st_['args']) > 1 and canon(NB, xt['args'][1]) != canon(NB, st_['args'][1]):
+                        vals_ok = False
+                if vals_ok:
+                    ctx.ok('C16.5-creation-stores-paired', inst, 'the same value goes to PidAllocator::set_creation', ctx.where(NB, sb))
+                else:
+                    ctx.bad('C16.5-creation-stores-paired', inst, 'the node field and the allocator are given different creation values', ctx.where(NB, sb), key='PAIR:%s:creation-values-differ' % NB.path.split('::{')[0])
+            else:
+                ctx.bad('C16.5-creation-stores-paired', inst, 'the node\'s creation field is stored here on a path that never calls PidAllocator::set_creation: pids made afterwards carry the allocator\'s old creation, references the new one',
+                        ctx.where(NB, sb), key='PAIR:%s:creation-store-without-allocator' % NB.path.split('::{')[0])
+    ctx.anchor(n_cs >= 1, 'stores to Node.creation')
 
 
 def _vec_elems(B, op):
